@@ -342,8 +342,15 @@ impl<Aux> Vm<'_, Aux> {
         if let Err(err) = self._run(&mut instr_ptr) {
             // the caller may handle the error and carry on: drop the frames and the values
             // (arguments included) the failed call left behind
-            self.unwind(call_depth, (len - arity) as usize);
+            self.unwind(call_depth, stack_offset as usize);
             return Err(err.payload);
+        }
+        if self.runtime_data.call_stack.len() != call_depth + 1 {
+            // the callee did not come back through the trap frame: an Abort card ended the
+            // nested run from inside it. The program asked to stop: the stacks are put back and
+            // the caller is told so (there is no value to hand back)
+            self.unwind(call_depth, stack_offset as usize);
+            return Err(ExecutionErrorPayload::ExitCode(0));
         }
         // pop the trap callframe
         self.runtime_data.call_stack.pop();
@@ -840,7 +847,20 @@ impl<Aux> Vm<'_, Aux> {
         // any depth), so that repeated runs do not use up the value stack either
         self.unwind(call_depth, stack_height);
         self.runtime_data.current_program = std::ptr::null();
-        result
+        // an Abort card inside a function that a native function called back into travels up as
+        // ExitCode(0) (wrapped by every native function on the way): it ends the program like
+        // an Abort anywhere else does
+        fn is_abort(payload: &ExecutionErrorPayload) -> bool {
+            match payload {
+                ExecutionErrorPayload::ExitCode(0) => true,
+                ExecutionErrorPayload::TaskFailure { error, .. } => is_abort(error),
+                _ => false,
+            }
+        }
+        match result {
+            Err(err) if is_abort(&err.payload) => Ok(()),
+            result => result,
+        }
     }
 
     #[inline]
